@@ -78,5 +78,7 @@ NoStaleMean == \A b \in Bases : (last[b].valid /\ ~last[b].residual) => mean[b] 
 \* vacuity witnesses (expected to be violated)
 NeverShorter == ~(\E b \in Bases : last[b].valid /\ \E i \in Idx : i > last[b].n /\ files[b][i] # NoFile)
 NeverFails == \A b \in Bases : nsave > 0 => (last[b].valid \/ last[b] = NoSave)
+\* restriction used for a targeted exhaustive emission: one base name, every save overwrites
+OneBaseOverwrite == \A i \in 1..Len(hist) : hist[i].base = "s_1" /\ (hist[i].op = "save" => hist[i].ow)
 Emit == (EmitHist /\ nops = MaxOps) => PrintT(ToJson([hist |-> hist]))
 =============================================================================
